@@ -9,6 +9,10 @@ fd, junit = tempfile.mkstemp(suffix=".xml", dir="/dev/shm")
 os.close(fd)
 env = {k: v for k, v in os.environ.items() if not k.startswith("ODCSIM") and not k.startswith("VERIF")}
 cmd = base["cmd"].replace("<file>", junit)
+alt = os.environ.get("BASELINE_DIR")  # run the same suite in a scratch worktree (seeded-change verification)
+if alt:
+    cmd = cmd.replace("cd /repo", f"cd {alt}")
+    env["PYTHONPATH"] = alt
 r = subprocess.run(cmd, shell=True, env=env, capture_output=True, text=True)
 passed = set()
 try:
